@@ -106,5 +106,11 @@ CHECKS["C16"] = (
     "Theorems for all dimensions n >= 1 and population sizes >= 2, all fitness sequences including ties, +-inf and NaN, active and default updates, all lists of leaf shapes, all boxes / variances / population and elite sizes. The extracted model (float64 instance) is compared with CMAESConfig / CMAESState / set_evaluation_feedback / update_search_distribution, set_params / flat_params on 14 architectures (bitwise) and cem_sample / cem_update on every run; the property's own spec is evaluated on the implementation's outputs independently of the model.",
     "Trusts: Coq kernel + the standard library's real-number axioms (Print Assumptions: ClassicalDedekindReals.sig_forall_dec, sig_not_dec, functional_extensionality_dep, Classical_Prop.classic; the two flat-parameter theorems are axiom-free); extraction, OCaml glue (libm exp/log/sqrt/pow in the float instance), Python harness. Oracles, not modelled: jnp.linalg.eigh (inv_sqrt), jax.random.multivariate_normal, jax.random.truncated_normal, nnx.state leaf order. PARTIAL: positivity of the variances under the ACTIVE covariance update is proved only under a bound on the negative rank-mu term that the code does not establish (C16_cov_diag_positive_active_partial; C16_active_entry_can_be_negative shows the bound is needed); on the implementation it is checked dynamically only. Float32 effects (symmetry up to rounding, ranking of float32(fitness)) are outside the real-number theorems.",
 )
+CHECKS["C17"] = (
+    "DESIGN.md §2 C17",
+    "Coq proof over R (soft log-variance bounds by monotonicity of ln/exp; rank behaviour of the vmapped bounding on a rank-generic tensor model; member slice for batches, refutation witnesses and partial theorems for single vectors; law of total variance; Gaussian NLL closed form; pendulum reward via acos/cos and the floored modulus) and over nat lists (bootstrap rows, joint shuffle, reshape/transpose batching, by induction for all sizes) + correspondence with the real GaussianMLPEnsemble, train_ensemble, evaluate_plans, pendulum_reward and gymnasium's PendulumEnv",
+    "Theorems for every member network, ensemble size >= 1, batch size and output dimension: bounded log-variances lie strictly above the learned lower bound and below the upper bound plus the softplus slack ln(1+e^-(max-min)), per output dimension; __call__ is the joint pass and the per-member pass feeds member i only its own inputs; on BATCHES member i's distribution (mean, stddev, stddev^2 = variance) and base_predict's mean equal slice i; aggregate = (mean of means, mean variance + population variance of means) and equals the mixture's second moment minus squared mean; gaussian_nll = mean negative log-density - ln(2 pi)/2; every member's batches read its own bootstrap row at positions used at most once per epoch, fewer than batch_size positions dropped (all data-set and batch sizes); plan value = particle mean of horizon sums = horizon sum of particle means; the bundled Pendulum reward equals Gymnasium's for every real state and action. REFUTED with kernel-checked witnesses (model mirrors the code): base_predict raises on every single vector and returns (B,n,n) variances on batches; base_distribution on a single vector uses the log-variance of dimension 0 for all dimensions in the row PETS samples; partial theorems state what holds (diagonal, one output dimension). The harness reports these as concrete VIOLATIONs on the real classes.",
+    "Trusts: Coq kernel + the standard library's real-number axioms (Print Assumptions: ClassicalDedekindReals.sig_forall_dec, sig_not_dec, functional_extensionality_dep, Classical_Prop.classic); the nat-list theorems are closed under the global context; extraction, OCaml glue (libm exp/log/tanh/acos/floor in the float instance), harness; nnx.vmap/split/merge, TFP MultivariateNormalDiag, jax.random.choice/permutation (their outputs are inputs of the index model), optax and the scan in train_epoch as executed. Member networks are arbitrary in the theorems; GaussianMLP itself is tied by correspondence only. The ts_inf spread check is statistical.",
+)
 _PENDING = "check not built yet in this revision (planned: Coq model + correspondence, see DESIGN.md §2)"
 NOT_APPLICABLE = {f"C{i:02d}": _PENDING for i in range(1, 21) if f"C{i:02d}" not in CHECKS}
